@@ -1,5 +1,6 @@
 import Driver.Loop
 import PytypeModel.Sem.Matcher
+import PytypeModel.Sem.CallableArity
 open PytypeModel.Sem
 
 /-! protocol (prefix token strings, see harness/c02.py `ann_tok`/`val_tok`/`hier_tok`):
@@ -117,6 +118,14 @@ def stepC02 (H : Hierarchy) (line : String) : Hierarchy × Option String :=
           bit (member H v a), bit (InF2 H a), bit (Guard v a), bit v.pyDistinct, bit t.singleView, bit v.inF2]))
       | _ => (H, some "bad-op")
     | _ => (H, some "bad-op")
+  | ["carity", rp, op, va, rk, ok, kw, n] =>
+    -- the arity clause of a function value against Callable[[A1..An], R] (Sem/CallableArity.lean)
+    match rp.toNat?, op.toNat?, va.toNat?, rk.toNat?, ok.toNat?, kw.toNat?, n.toNat? with
+    | some rp, some op, some va, some rk, some ok, some kw, some n =>
+      let s : PytypeModel.Sem.CallableArity.FSig := ⟨rp, op, va != 0, rk, ok, kw != 0⟩
+      (H, some (" ".intercalate [bit (PytypeModel.Sem.CallableArity.arityMatch s n),
+        bit (PytypeModel.Sem.CallableArity.cpyAccepts s n), bit (PytypeModel.Sem.CallableArity.Guard s)]))
+    | _, _, _, _, _, _, _ => (H, some "bad-op")
   | _ => (H, some "bad-op")
 
 def main : IO Unit := Driver.run (⟨[]⟩ : Hierarchy) stepC02
